@@ -29,16 +29,16 @@ type ObsTag struct {
 }
 
 type ObsRef struct {
-	S      string   `json:"s"`      // subject digest symbol
-	F      string   `json:"f"`      // filter ("" none)
-	St     int      `json:"st"`     // status of the first page
-	List   []string `json:"list"`   // digests listed, in order, over the whole Link chain
-	Bad    []string `json:"bad"`    // listed descriptors whose fields are not the expected ones
-	FA     bool     `json:"fa"`     // OCI-Filters-Applied announced on every page
-	Pages  []int    `json:"pages"`  // byte length of every page
-	CT     bool     `json:"ct"`     // every page is an OCI index with the index content type
-	Warm   bool     `json:"warm"`   // second (cache warm) query gave the same answer
-	Loop   bool     `json:"loop"`   // the Link chain did not terminate
+	S     string   `json:"s"`     // subject digest symbol
+	F     string   `json:"f"`     // filter ("" none)
+	St    int      `json:"st"`    // status of the first page
+	List  []string `json:"list"`  // digests listed, in order, over the whole Link chain
+	Bad   []string `json:"bad"`   // listed descriptors whose fields are not the expected ones
+	FA    bool     `json:"fa"`    // OCI-Filters-Applied announced on every page
+	Pages []int    `json:"pages"` // byte length of every page
+	CT    bool     `json:"ct"`    // every page is an OCI index with the index content type
+	Warm  bool     `json:"warm"`  // second (cache warm) query gave the same answer
+	Loop  bool     `json:"loop"`  // the Link chain did not terminate
 }
 
 type ObsSess struct {
@@ -60,9 +60,9 @@ type ObsDisk struct {
 }
 
 type ObsEnt struct {
-	D    string `json:"d"`    // digest symbol ("?" unknown)
-	T    string `json:"t"`    // model tag ("" none, "?.." unknown)
-	S    string `json:"s"`    // referrers subject symbol ("" none)
+	D    string `json:"d"` // digest symbol ("?" unknown)
+	T    string `json:"t"` // model tag ("" none, "?.." unknown)
+	S    string `json:"s"` // referrers subject symbol ("" none)
 	MT   string `json:"mt"`
 	Size bool   `json:"size"` // recorded size equals the blob file size
 	File bool   `json:"file"` // blob file exists
